@@ -4,7 +4,7 @@
  "file": "scan.c", "function": "number",
  "properties": {"C13": "contract", "C19": "safety"},
  "mode": "dfcc", "enforce": "number/number_contract", "post_macro": "POST_NUM",
- "replace_calls": {"nextchar": "nextchar_spec"},
+ "replace_calls": {"nextchar": "nextchar_abs"},
  "kind": "bounded",
  "bound": "files of at most 12 logical characters (all byte values) from the first digit on, each preceded by 0 or 1 backslash-newline pair; loop of number() unwound 14 times",
  "unwindset": ["number_wrapped_for_contract_checking.0:14"],
@@ -13,7 +13,7 @@
  "cbmc_flags": ["--drop-unused-functions"],
  "timeout": 300,
  "expects": ["postcondition", "assigns"],
- "assumes": ["nextchar is taken by its stand-in nextchar_spec (SCAN.nextchar proves the real one refines it)",
+ "assumes": ["nextchar is taken by its stand-in nextchar_abs (scan_common.h; SCAN.nextchar + SCAN.nextchar.abs prove the real one refines it)",
              "identifier-nondigit = ASCII letters and underscore (no universal character names, no bytes >= 0x80)",
              "inputs with two ADJACENT sign characters in the window are excluded here and stated in SCAN.number.signsign (finding: number() keeps accepting signs after the first exponent sign)"]
 }
